@@ -28,6 +28,9 @@ CLAIMED = {
     "C08": ("exploration",
             "Deterministic simulation of proxyproto.Listener over the in-memory network (and, in a fifth of the runs, of the whole proxy with the PROXY protocol enabled): generated v1/v2 headers of every command x family, TLV tails, malformed/truncated/oversized headers, every segmentation down to single bytes, peers stalling before any header byte for less or more than the header timeout (fake clock) or forever, and several application goroutines calling Read/RemoteAddr/LocalAddr/Header/Write concurrently before the header arrives. Oracle: a reference parser written from the PROXY protocol specification decides accept(src,dst) / accept-local / reject / either; addresses never nil, payload byte-exact, failure no later than the timeout; a dead worker = crash.",
             "DESIGN.md 4 C08", "deterministic simulation (segmentation, stalls on the fake clock, concurrent callers) + independent PROXY v1/v2 reference parser"),
+    "C11": ("exploration",
+            "Deterministic simulation of HTTPProxy.Run with client connections in drawn phases (idle, served then idle, request at an origin with latency up to 120 s, head half sent, tunnel, response backed up against slow or dripping readers on tiny links, vanishing clients, requests and connections that first appear after shutdown began) on plain and TLS listeners; the shutdown request is a scheduler event that can fire at any step. History oracle over (origin log, shutdown event, Run return) stamped with global sequence numbers and simulated time, plus the simulator's socket ledger and the listener gauge: in-flight exchanges complete and are then closed, nothing first sent after the event reaches an origin, Run returns the context error within the drain limit and only with every accepted socket closed.",
+            "DESIGN.md 4 C11", "deterministic simulation with shutdown as a scheduled event + history checks over recorded events, socket ledger"),
     "C12": ("fault_enumeration",
             "Fault enumeration in the deterministic simulator: every request kind (plain, via upstream, CONNECT direct / via HTTP / via HTTPS upstream, MITM-inner) crossed with every fault point the network and the scripted peers can produce (refused / black-holed dial with the timeouts on the fake clock, RST at accept, TLS garbage / close / expired / wrong-name / untrusted certificate, CONNECT rejected with 3xx-5xx, FIN or RST after k bytes of the reply with k ranging over the whole reply, malformed status line / header / chunk, wrong Content-Length, unusual status lines) with healthy exchanges before and after on the same connection, plus a second world of hostile client byte streams on plain/TLS/MITM listeners. A strict client-side parser classifies the outcome; a dead worker process (Go panic in a proxy goroutine) is reported as a crash with its seed.",
             "DESIGN.md 4 C12", "deterministic simulation with enumerated fault points (dial, TLS, CONNECT reply, cut after k bytes) + strict client parser + crash detection by worker death"),
